@@ -183,12 +183,12 @@ ADD9 = {
 ADD10 = {
  "C01": ("stale-pointer, take-before-use and per-iteration path rules over the evaluator", "No execution context is written through a scope pointer read before a call that changes rt.scope; the iteration and switch evaluators take the pending label set before evaluating any part of the statement; the for-in reference is computed inside the enumeration callback."),
  "C03": ("exhaustive evaluation of the numeric-literal value function; token-adjacency rules of the regular expression literal", "Every decimal, legacy-octal and hexadecimal literal form (38 + 4 literals, hex beyond 2^63 modulo 2^64, integers beyond 2^53 as doubles) has the value of 7.8.3 / B.1.1; the flags of a regular expression literal are not taken across a line break; the scanner arms semicolon insertion for both tokens that begin a literal; the keyword lookup does not depend on the raw first character."),
- "C04": ("token-state path search for a trailing separator; keyword lookup independent of the raw character", "In lists closed by a right parenthesis a consumed comma is followed by an element or an error (two known findings: the suite pins the leniency); an identifier spelled with a unicode escape is still looked up in the keyword table."),
+ "C04": ("token-state path search for a trailing separator; keyword lookup independent of the raw character", "In lists closed by a right parenthesis a consumed comma is followed by an element or an error (two known findings: the suite pins the leniency); an identifier spelled with a unicode escape is still looked up in the keyword table; a labelled statement hands the pending continues that name an outer label on instead of dropping them."),
  "C05": ("exhaustive evaluation of ToNumber applied to a string; step order of [[HasInstance]]", "70 texts (white space, every StrDecimalLiteral form, negative zero, Infinity, both hex spellings, Go-only numeric forms) convert as 9.3.1 prescribes; [[HasInstance]] tests its argument for Object before it reads `prototype`."),
  "C06": ("exhaustive evaluation of ToNumber(string) and of the numeric literal; 2^53 bound on integers printed as decimal digits; sign of integer remainders", "String-to-number on the 70-text table and literal values on the literal table; a float64 printed through FormatInt / Itoa is bounded by 2^53 on the path; no signed remainder with a possibly negative dividend is used uncorrected."),
  "C07": ("ownership of the raw property-table reader", "The raw reader is applied only to the object a class function was handed, never to one reached through the prototype link (whose class may answer [[GetOwnProperty]] itself)."),
  "C09": ("exhaustive evaluation of String.prototype.indexOf / lastIndexOf", "196 cases (seven search strings, fourteen positions including NaN and the infinities) agree with 15.5.4.7 / 15.5.4.8."),
- "C11": ("nil-ness of the replacer list; control dependence of the reviving walk", "An array replacer always yields a non-nil property list where nil means `no array`; the reviver is applied whatever the parsed root is."),
+ "C11": ("nil-ness of the replacer list; control dependence of the reviving walk", "An array replacer always yields a non-nil property list where nil means `no array`; the reviver is applied whatever the parsed root is; a recursion counter kept behind a pointer is decremented again."),
  "C12": ("sign of integer remainders", "No Go remainder of a possibly negative time value is used as a non-negative field (msFromTime before 1970)."),
  "C13": ("surrogate tests of the URI encoder; percent-escape formats", "Two code units are tested against DC00..DFFF on URIError branches; no constant format writes a percent escape with an unpadded hexadecimal verb."),
  "C18": ("operand-type flow into package fmt; nesting-aware unwrap of the interrupt marker", "No value whose String method runs script code (computed: Value, *object) is an operand of a fmt formatter, whose panic recovery would swallow an interrupt (three repairs); a handler that is also reached from the evaluator does not unwrap the marker; the API guards' unconditional unwrap under nested entry is a known finding."),
